@@ -271,7 +271,7 @@ def bounded(tier, seed):
     res = native("mesh.py", {"seed": seed, "thorough": tier != "quick"}, timeout=3000)
     if not res.get("ok"):
         raise RuntimeError(f"native driver failed: {res}")
-    return [{"name": "all_decompositions_of_small_grids", "bound": "every decomposition of grids up to 6x5 (quick) / 7x6x3 (thorough) cells incl. uneven chunks, all grid classes where from_bounds accepts the sub-bounds; ranks 0-1; operators with neighbour ghost cells; _subdivide(num, chunks) tiles the axis with balanced chunks for every pair with num <= 120 (exhaustive; float intermediates are outside the real-number model)",
+    return [{"name": "all_decompositions_of_small_grids", "bound": "every decomposition of grids up to 6x5 (quick) / 7x6x3 (thorough) cells incl. uneven chunks, all grid classes where from_bounds accepts the sub-bounds; ranks 0-1; operators with neighbour ghost cells; Cartesian grids: laplace with ghost cells copied from neighbouring sub-fields and outer-face conditions transferred by to_subgrid (mixed, expression virtual points with and without value_cell; refused transfers skipped); extract_subfield / split_field_mpi of Scalar-, Vector-, Tensor2Field and FieldCollection objects of five dtypes (values and dtype identical after combining); _subdivide(num, chunks) tiles the axis with balanced chunks for every pair with num <= 120 (exhaustive; float intermediates are outside the real-number model)",
              "cases": res["cases"], "failures": res["failures"]}]
 
 
